@@ -136,6 +136,7 @@ func Main(prop string) {
 	if prop == "C04" {
 		layout(run, variants)
 		keywordCase(run)
+		compoundLayout(run)
 	}
 	if prop == "C05" {
 		parserErrorLocations(run)
@@ -241,6 +242,56 @@ func layout(run *core.Run, variants int) {
 				}
 				run.Violate(core.Violation{Sig: "layout-changes-tokens|" + sepKind + "-separator", Clause: "changing only the whitespace or comments between elements never changes the sequence of kinds and values",
 					Case: map[string]any{"lexemes": p.c.Lx, "separators": p.c.Sp, "text": p.text}, Observe: p.stream, Expect: want})
+			}
+		}
+	}
+}
+
+// compoundLayout: the words of a compound keyword (the tokenizer reads ORDER BY, LEFT OUTER JOIN, GROUPING SETS ... as
+// one element) separated by every blank separator of LexLayout.tla give the element they give with one blank - same kind,
+// same value; with a comment between the words the same words come out, fused or not.
+func compoundLayout(run *core.Run) {
+	compounds := []string{"GROUP BY", "ORDER BY", "LEFT JOIN", "RIGHT JOIN", "INNER JOIN", "OUTER JOIN", "FULL JOIN", "CROSS JOIN",
+		"LEFT OUTER JOIN", "RIGHT OUTER JOIN", "FULL OUTER JOIN", "GROUPING SETS", "group by", "Cross Join", "grouping sets", "full outer join"}
+	blanks := map[string]string{"two-blanks": "  ", "tab": "\t", "newline": "\n", "crlf": "\r\n", "blank-newline-blank": " \n ", "newline-indent": "\n    ", "many": " \t \n\t "}
+	comments := map[string]string{"line-comment": " -- c\n", "block-comment": "/* c */", "block-comment-with-quote": " /* ' \n */ "}
+	toks := func(s string) (string, []string, error) {
+		tk, _ := tokenizer.New()
+		ts, err := tk.Tokenize([]byte(s))
+		if err != nil {
+			return "", nil, err
+		}
+		var words []string
+		for _, t := range ts {
+			words = append(words, strings.Fields(strings.ToUpper(t.Token.Value))...)
+		}
+		return ops.TokString(ts, false), words, nil
+	}
+	for _, c := range compounds {
+		ws := strings.Fields(c)
+		for _, frame := range []string{"a %s b", "%s", "x.y %s (1)"} {
+			ref, refWords, err := toks(fmt.Sprintf(frame, strings.Join(ws, " ")))
+			if err != nil {
+				core.Fatalf("compound keyword %q does not tokenize: %v", c, err)
+			}
+			for name, sep := range blanks {
+				text := fmt.Sprintf(frame, strings.Join(ws, sep))
+				got, _, err := toks(text)
+				run.Eval(1)
+				run.Nontrivial("compound" + c + name + frame)
+				if err != nil || got != ref {
+					run.Violate(core.Violation{Sig: "layout-changes-tokens|compound-keyword|" + name, Clause: "changing only the whitespace or comments between elements never changes the sequence of kinds and values",
+						Case: map[string]any{"compound_keyword": c, "separator": name, "text": text}, Observe: fmt.Sprint(got, err), Expect: ref})
+				}
+			}
+			for name, sep := range comments {
+				text := fmt.Sprintf(frame, strings.Join(ws, sep))
+				_, words, err := toks(text)
+				run.Eval(1)
+				if err != nil || strings.Join(words, " ") != strings.Join(refWords, " ") {
+					run.Violate(core.Violation{Sig: "layout-changes-tokens|compound-keyword|" + name, Clause: "changing only the whitespace or comments between elements never changes the sequence of kinds and values",
+						Case: map[string]any{"compound_keyword": c, "separator": name, "text": text}, Observe: fmt.Sprint(words, err), Expect: refWords})
+				}
 			}
 		}
 	}
